@@ -81,6 +81,8 @@ def build_api(position, words):
             http = [dict(verb='post', uri=f'/v1/m{i}', body=w)]
         elif position == 'routing_field':
             req = dict(name=M, fields=[dict(name=w), dict(name='plain')]); routing = [dict(field=w)]
+        elif position == 'routing_template':
+            req = dict(name=M, fields=[dict(name=w), dict(name='plain')]); routing = [dict(field=w, tmpl='{%s=items/*}' % w)]
         elif position == 'rpc_name':
             req = dict(name=M, fields=[dict(name='plain')]); name = cap(w)
         elif position == 'proto_file':
@@ -159,14 +161,28 @@ def collisions_proto_plus_deps(chk):
                  messages=[dict(name='Req', fields=[dict(name='a', type='.acme.basics.v1.Label'), dict(name='b', type='Local')]),
                            dict(name='Out', fields=[dict(name='name'), dict(name='s', type='.acme.basics.v1.Label'), dict(name='l', type='Local')])],
                  services=[dict(name='Nm', methods=[dict(name='Mix', **{'in': 'Req', 'out': 'Out'}, http=[dict(verb='post', uri='/v1/mix', body='*')])])])
-    api = dict(files=[dep_file, own, main_])
-    chk.case('collision:proto-plus-deps', nontrivial=True)
+    # variant 'split': the two `common` modules are used by DIFFERENT messages of the file (the collision is a property of the file)
+    split_ = dict(name='acme/nm/v1/svc.proto', package=PKG,
+                  messages=[dict(name='Req', fields=[dict(name='a', type='.acme.basics.v1.Label')]),
+                            dict(name='Loc', fields=[dict(name='b', type='Local')]),
+                            dict(name='Out', fields=[dict(name='name'), dict(name='loc', type='Loc')])],
+                  services=[dict(name='Nm', methods=[dict(name='Mix', **{'in': 'Req', 'out': 'Out'}, http=[dict(verb='post', uri='/v1/mix', body='*')])])])
+    for variant, mainfile, code_body in (
+            ('', main_, "r = nm_v1.Req(a=dep_common.Label(text='t'), b=nm_v1.Local(y='z'))\n"
+                         "b = nm_v1.Req.serialize(r); r2 = nm_v1.Req.deserialize(b); assert r2.a.text == 't' and r2.b.y == 'z', r2\nprint('ok')"),
+            (':split', split_, "r = nm_v1.Req(a=dep_common.Label(text='t')); l = nm_v1.Loc(b=nm_v1.Local(y='z'))\n"
+                               "assert nm_v1.Req.deserialize(nm_v1.Req.serialize(r)).a.text == 't' and nm_v1.Loc.deserialize(nm_v1.Loc.serialize(l)).b.y == 'z'\nprint('ok')")):
+        _ppd_variant(chk, variant, dep_api, dict(files=[dep_file, own, mainfile]), code_body)
+
+
+def _ppd_variant(chk, variant, dep_api, api, code_body):
+    chk.case('collision:proto-plus-deps' + variant, nontrivial=True)
     with gen.scratch() as work:
         try:
             _, dres = gen.generate_api(dep_api, dict(transport=['grpc'], snippets=False), work)
             req, res = gen.generate_api(api, dict(transport=['grpc', 'rest'], snippets=False, proto_plus_deps='acme.basics.v1'), work)
         except Exception as e:
-            chk.violation('collision:proto-plus-deps:generation', f'{type(e).__name__}: {e}'[:300]); return
+            chk.violation('collision:proto-plus-deps' + variant + ':generation', f'{type(e).__name__}: {e}'[:300]); return
         root = gen.materialise(res, os.path.join(work, 'out'))
         gen.materialise(dres, os.path.join(work, 'depout'))
         # both emitted trees share the `acme` namespace: merge the dependency tree into the main one
@@ -174,15 +190,13 @@ def collisions_proto_plus_deps(chk):
         shutil.copytree(os.path.join(work, 'depout', 'acme', 'basics_v1'), os.path.join(root, 'acme', 'basics_v1'))
         imp = pipeline.import_probe(root, MODULE)
         if not imp['ok']:
-            chk.violation('collision:proto-plus-deps:import', f"{imp['errors'][:2]}")
+            chk.violation('collision:proto-plus-deps' + variant + ':import', f"{imp['errors'][:2]}")
             return
-        code = ("import sys; sys.path.insert(0, %r)\nfrom acme import nm_v1\nfrom acme.basics_v1.types import common as dep_common\n"
-                "r = nm_v1.Req(a=dep_common.Label(text='t'), b=nm_v1.Local(y='z'))\n"
-                "b = nm_v1.Req.serialize(r); r2 = nm_v1.Req.deserialize(b); assert r2.a.text == 't' and r2.b.y == 'z', r2\nprint('ok')" % root)
+        code = ("import sys; sys.path.insert(0, %r)\nfrom acme import nm_v1\nfrom acme.basics_v1.types import common as dep_common\n" % root) + code_body
         import subprocess
         p = subprocess.run([gen.PY, '-W', 'ignore', '-c', code], capture_output=True, text=True, cwd=root)
         if p.returncode != 0:
-            chk.violation('collision:proto-plus-deps:use', p.stderr.strip().splitlines()[-1][:300] if p.stderr.strip() else 'failed')
+            chk.violation('collision:proto-plus-deps' + variant + ':use', p.stderr.strip().splitlines()[-1][:300] if p.stderr.strip() else 'failed')
 
 
 def main(chk, args):
